@@ -5,5 +5,5 @@ From Coq Require Import List NArith Bool.
 From NngV Require Import Gen.Consts Proto.Common Proto.PairModel Proto.PairGuard.
 
 Definition pair0_init : pair := pair_init.
-Definition pair0_step : pair -> pop -> pair * list pout := pair_step_g K0 C08_PAIR0_STOP_WRITABLE_FIXED C08_PAIR0_STALE_FIXED.
+Definition pair0_step : pair -> pop -> pair * list pout := pair_step_g K0 C08_PAIR0_STOP_WRITABLE_FIXED C08_PAIR0_RESIZE_ADMITS_FIXED C08_PAIR0_STALE_FIXED.
 Definition pair0_poll : pair -> ppoll := pair_poll.
